@@ -273,22 +273,22 @@ BaseGeom(o, e) ==
       [] e.ftype = "objC1D"   -> GRec("Continuous1D", "user", FunDim(o), 0)
       [] e.ftype = "objKL"    -> GRec("KLExpansion", "user", 3, 0)
       [] e.ftype = "objStep"  -> GRec("StepExpansion", "user", 2, 2)
-      [] e.ftype = "objUser"  -> GRec("UserRamp", "user", 2, 0)
+      [] e.ftype = "objUser"  -> GRec("UserAlt", "user", 2, 0)
 \* the classes whose par2fun is exact over the integers
-FieldKnown(g) == g.kind \in {"Continuous1D", "StepExpansion", "UserRamp"}
+FieldKnown(g) == g.kind \in {"Continuous1D", "StepExpansion", "UserAlt"}
 \* StepExpansion (docstring): S equidistant steps on [x_1, x_n]; node k lies in step 1 if x <= L/S, in step i if
 \* (i-1) L/S < x <= i L/S  (x measured from x_1, regular grid: x = (k-1) L/(n-1))
 StepIdx(k, n, S) == CHOOSE i \in 1..S : (i = 1 \/ (k - 1) * S > (i - 1) * (n - 1)) /\ (k - 1) * S <= i * (n - 1)
 Par2Fun(g, p, n) ==
     CASE g.kind = "StepExpansion" -> [k \in 1..n |-> p[StepIdx(k, n, g.steps)]]
-      [] g.kind = "UserRamp"      -> [k \in 1..n |-> p[1] + (k - 1) * p[2]]        \* the caller's class: a ramp
+      [] g.kind = "UserAlt"       -> [k \in 1..n |-> p[2 - (k % 2)]]               \* the caller's class: p1, p2, p1, p2 ...
       [] OTHER                    -> p                                             \* Continuous1D: function values = parameters
 MapF(m, f) == CASE m = "affine" -> [k \in 1..Len(f) |-> 2 * f[k] + 1]
                 [] m = "square" -> [k \in 1..Len(f) |-> f[k] * f[k] + 1]
                 [] OTHER        -> f                                               \* no map
 ImapOf(m) == IF m = "affine" THEN "iaffine" ELSE "isquare"
-\* integer test parameters of length d (all positive: the Poisson conductivity must not vanish)
-FPars(d) == << [i \in 1..d |-> i], [i \in 1..d |-> ((i * i) % 3) + 1], [i \in 1..d |-> d + 1 - i] >>
+\* integer test parameters of length d (all positive: the Poisson conductivity must not vanish; small: 32-bit rationals)
+FPars(d) == << [i \in 1..d |-> ((i - 1) % 3) + 1], [i \in 1..d |-> ((i * i) % 3) + 1], [i \in 1..d |-> 3 - ((i - 1) % 3)] >>
 \* the solution operators on FUNCTION VALUES, as the replayer instantiates the problems: Poisson1D(dim = n, endpoint = n-1,
 \* source = FSrc): dx = 1; Heat1D(dim = n, endpoint = n+1, max_time = 1): dx = 1, two explicit steps with r = 1/2
 \* (read back from the public time grid by the replayer); Abel1D(dim = n, endpoint = 2): h = 2/n, irrational weights
